@@ -188,7 +188,9 @@ def render_lxml(paths, default_ns):
                     return None
                 other = "descendant" if ax == "following" else "ancestor"
                 t2 = "*" if (t == "node()" and ax == "preceding") else tt
-                variants = [sep + ax + "::" + tt + ps, sep + other + "::" + t2 + ps]
+                # the extension concerns nodes of the tree: the root node has no following nodes in delb either
+                guard = "self::node()[parent::node()]/" if ax == "following" else ""
+                variants = [sep + ax + "::" + tt + ps, sep + guard + other + "::" + t2 + ps]
             else:
                 variants = [sep + ax + "::" + tt + ps]
             alts = [a + v for a in alts for v in variants]
